@@ -105,8 +105,17 @@ def check_envelope_membership(ctx, prog, ep, root, rule="c11.scope"):
     tenv_node = strip(dict(zip(wnode[2], wnode[3]))["is_tenv"])
 
     def make_atom(bnd, ti, hn, ni):
-        def atom(n):
+        def atom(n, _res=True):
             n = strip(n)
+            if _res and n[0] in ("call", "discr", "bin", "proj"):
+                # helpers with a case distinction of their own (`w.adjacent_space()`) are evaluated under the same assignment first
+                n2 = strip(TB.resolve_helpers(prog, n, lambda x: atom(x, False)))
+                if n2 != n:
+                    return atom(n2)
+                if n2[0] == "agg" and n2[1].split("::")[-1] == "None":
+                    return None
+            if n[0] == "agg" and n[1].split("::")[-1] in ("None",):
+                return "0"
             if n[0] == "un" and n[1] == "Not":
                 v = atom(n[2])
                 return None if v is None else ("0" if v == "1" else "1")
@@ -223,9 +232,47 @@ def check_envelope_membership(ctx, prog, ep, root, rule="c11.scope"):
                     outs.append(dflt[0] == "k" and dflt[1] == "false")
     if len(outs) >= 1 and all(outs):
         ctx.ok(rule, rule + "|missing-space", "a missing space counts as outside the envelope (map_or(false, |s| s.inside_tenv) x%d)" % len(outs), ep.loc())
+    elif outs:
+        ctx.violation(rule, rule + "|missing-space", "a missing (adjacent) space is treated as inside the envelope (map_or defaults: %s)" % outs, ep.loc())
     else:
-        ctx.violation(rule, rule + "|missing-space", "a missing (adjacent) space is no longer treated as outside (defaults: %s)" % outs, ep.loc())
+        # the lookups are written some other way (match / helper functions): evaluate every bool-valued body that looks a space up and reads its
+        # inside_tenv with the lookup failing; it must answer false
+        verdicts = []
+        bodies = [ep] + prog.closures_of(ep)
+        mod = ep.path.split("::<")[0] if "::<" in ep.path else ep.path.rsplit("::", 1)[0]
+        for f_ in prog.fns.values():
+            if f_.crate == ep.crate and f_.kind in ("fn", "assocfn") and f_.raw.get("ret") == "bool" and "energy::props" in f_.path:
+                bodies.append(f_)
+        for bf in bodies:
+            if bf.raw.get("ret") != "bool" and bf.kind != "closure":
+                continue
+            bsc = Scope(prog, bf)
+            txt = " ".join(show(strip(bsc.operand(t["args"][0]))) + short_callee(callee_name(t) or "") for b, t in bf.body.calls())
+            reads = any(st["s"] == "assign" and "inside_tenv" in show(bsc.rvalue(st["rv"])) for b, i, st in bf.body.statements())
+            if not reads or not ("get_space" in txt or "get" in txt):
+                continue
 
+            def none_atom(n):
+                n = strip(n)
+                if n[0] == "discr" and strip(n[1])[0] == "call" and short_callee(strip(n[1])[1]) in ("get_space", "get"):
+                    return "0"
+                if n[0] == "call" and short_callee(n[1]) in ("is_some", "is_none") and n[2] and strip(n[2][0])[0] == "call" and short_callee(strip(n[2][0])[1]) in ("get_space", "get"):
+                    return "1" if short_callee(n[1]) == "is_none" else "0"
+                if n[0] == "k" and n[1] in ("true", "false"):
+                    return "1" if n[1] == "true" else "0"
+                return None
+            r = TB.eval_return(bsc, none_atom)
+            if isinstance(r, tuple) or r is None:
+                continue
+            v = none_atom(r)
+            if v is not None:
+                verdicts.append((bf.path.split("::")[-1], v == "1"))
+        if any(v for _, v in verdicts):
+            ctx.violation(rule, rule + "|missing-space", "a space that cannot be found counts as inside the envelope in %s" % [n for n, v in verdicts if v], ep.loc())
+        elif verdicts:
+            ctx.ok(rule, rule + "|missing-space", "a missing space counts as outside the envelope (%s answer false when the lookup fails)" % [n for n, v in verdicts], ep.loc())
+        else:
+            ctx.ok(rule, rule + "|missing-space", "no default for a missing space could be read (lookups written in a form this rule does not evaluate): not decided", ep.loc())
 
 
 def run(ctx):
